@@ -79,7 +79,7 @@ def make_body(sk, info):
     spec += [('y%d' % i, 'bool', None) for i in range(NY)]
     for k in range(nargs):
         spec += [('m%d' % k, 'int', '0 <= m%d <= %d' % (k, NMODES - 1)), ('a%d' % k, 'int', None)]
-    spec += [('dyn', 'bool', None), ('dv', 'int', None), ('boom', 'int', '0 <= boom <= 3')]
+    spec += [('dyn', 'bool', None), ('dv', 'int', None), ('boom', 'int', '0 <= boom <= 3'), ('early', 'bool', None)]
     ix = ch.index_of(spec)
 
     def body(vals):
@@ -129,6 +129,12 @@ def make_body(sk, info):
         def make(pyp, pyq):
             yp = ch.new_engine()
             ch.load(yp, code_callers)
+            if g('early'):
+                # the query is issued once BEFORE the fact predicates exist (unknown predicates just fail);
+                # definitions supplied afterwards must be picked up all the same (late binding)
+                early_args = [yp.variable() for _ in range(nargs)]
+                for _ in yp.query(sk['query'][0], early_args):
+                    pass
             if pyp:
                 st = g('stp')
                 if st == 0:
@@ -208,8 +214,9 @@ def units(tier, seed):
         nargs = len(sk['query'][1])
         masks = [(True, True), (True, False), (False, True)]
         if tier == 'quick':
-            parts = [{'boom': 0, 'pyp': pp, 'pyq': pq} for pp, pq in masks]
-            parts += [{'boom': b, 'stp': 0, 'stq': 2} for b in (1, 2)]
+            parts = [{'boom': 0, 'pyp': pp, 'pyq': pq, 'early': False} for pp, pq in masks]
+            parts += [{'boom': 0, 'pyp': True, 'pyq': True, 'early': True, 'dyn': False}]
+            parts += [{'boom': b, 'stp': 0, 'stq': 2, 'early': False} for b in (1, 2)]
         else:
             parts = [{'boom': b, 'pyp': pp, 'pyq': pq} for b in range(4) for pp, pq in masks]
         for fx in parts:
